@@ -58,8 +58,8 @@ PROPS = {
         'partial': 'c03_partial: Artela-added code (journal opcodes so far) modelled and proved panic-free; inherited instruction bodies assumed',
     },
     'C16': {
-        'modules': ['Artela.Props.C16'],
-        'runs': [{'layer': 'tracer'}],
+        'modules': ['Artela.Props.C16', 'Artela.Proofs.GenFacts'],
+        'runs': [{'layer': 'tracer'}, {'layer': 'journal'}],
         'trusted_base': TB_M1 + ['Go map iteration order is an explicit adversarial permutation argument of every query that ranges over a map'],
         'assumptions': ['NewEVM allocates a fresh tracer per EVM (generated fact) and no package-level tracer state exists'],
     },
